@@ -218,7 +218,12 @@ func (g *Gen) randomIngress(ns, name string, keep *IngressSpec) IngressSpec {
 		case 11:
 			s.Annotations["blue-green-deploy"] = "group=blue=1,group=green=1"
 		case 12:
+			s.Annotations["affinity"] = "cookie"
 			s.Annotations["session-cookie-name"] = "srv"
+			if r.Bool() {
+				s.Annotations["session-cookie-preserve"] = "true"
+				s.Annotations["session-cookie-value-strategy"] = gen.Pick(r, []string{"pod-uid", "server-name"})
+			}
 		}
 	}
 	return s
